@@ -45,7 +45,7 @@ def symptom(r):
 
 def main(chk):
     quick = chk.tier == 'quick'
-    n_schemas, n_pops, n_tok, n_trunc = (5, 2, 24, 40) if quick else (40, 6, 60, 200)
+    n_schemas, n_pops, n_tok, n_trunc = (5, 2, 24, 40) if quick else (24, 5, 60, 200)   # thorough ~155k processes, ~15 min on 16 idle cores
     schemas = p21fam.std_corpus(chk.seed, n_schemas, AVOID_SCHEMA)
     libs = p21fam.report_build_failures(chk, p21fam.build_libs(schemas))
     cases = []   # (lib, data(bytes/str), ws, operator, construct)
